@@ -77,7 +77,10 @@ BYTE_NAMES = ['fromcsv', 'fromtsv', 'frompickle', 'fromtext',
 CONSUMERS = ['next', 'next', 'next', 'islice', 'head', 'look', 'lookstr',
              'see', 'repr_html', 'rowslice', 'data-slice', 'records-slice',
              'list-head', 'len-head', 'tuple-rowslice', 'header',
-             'fieldnames', 'default-preview']
+             'fieldnames', 'default-preview', 'repr-container']
+# repr() of the row containers dicts()/records()/namedtuples() shows five
+# items and looks at a sixth
+REPR_CONTAINERS = ['dicts', 'records', 'namedtuples']
 # previews called without a limit: the configured default applies (5 rows)
 DEFAULT_PREVIEWS = ['str', 'repr', 'lookstr', 'look', 'see']
 LOOKLIKE = ('look', 'lookstr', 'see', 'repr_html', 'default-preview')
@@ -229,6 +232,8 @@ def gen_case(rng, tier, g):
                                'k': rng.choice([0, 1, 2, 3, 5, 8, 12])}))
         if consumers[-1]['kind'] == 'default-preview':
             consumers[-1]['how'] = rng.choice(DEFAULT_PREVIEWS)
+        if consumers[-1]['kind'] == 'repr-container':
+            consumers[-1]['how'] = rng.choice(REPR_CONTAINERS)
         if consumers[-1]['kind'] in LOOK_KW and rng.random() < 0.4:
             # documented formatting arguments of the look-style consumers
             consumers[-1]['kw'] = rng.choice(LOOK_KW[consumers[-1]['kind']])
@@ -379,6 +384,9 @@ def _run_consumer(e, view, c, tid, items):
             else:
                 str(e.see(view))
             return k
+        if kind == 'repr-container':
+            repr(getattr(e, c.get('how', 'dicts'))(view))
+            return 5
         if kind == 'repr_html':
             import petl.config as config
             saved = config.display_limit
@@ -398,6 +406,8 @@ def _demand(c):
         return 0
     if c['kind'] in LOOKLIKE:
         return c['k'] + 1 if c['k'] > 0 else 0
+    if c['kind'] == 'repr-container':
+        return 6
     return c['k']
 
 
@@ -614,6 +624,20 @@ def _one_length(e, case, total, log, sb, poison):
                                    'but pulled %d data rows from source %d '
                                    '(bound %d)' % (tid, d, fac_,
                                                    pulls[tid][i], i, bound))
+        ea = rec.ends_after.get(stack[0][1]) if len(stack) == 1 else None
+        if ea is not None:
+            # a view with a declared end (head(n), rowslice with a stop):
+            # whatever is asked of it - a row past its last one included -
+            # it needs no source row beyond that end
+            for tid in res:
+                c_ = cons[int(tid[1:])]
+                fac_ = 2 if c_['kind'] in TWICE else 1
+                for i in streamed:
+                    if pulls[tid][i] > fac_ * (ea + 2) and total > ea + 50:
+                        raise _Bad('reads-on-after-its-end',
+                                   'consumer %s pulled %d data rows from '
+                                   'source %d of a view that ends after %d'
+                                   % (tid, pulls[tid][i], i, ea))
         sw = getattr(rec, 'stops_with', None)
         if sw is not None and len(stack) == 1:
             # a merge of sorted inputs that yields nothing once input `sw` has
